@@ -181,3 +181,23 @@ PROPS["C16"] = {
          "checks": {"quick": 1500, "thorough": 10000}, "shards": {"quick": 2, "thorough": 16}},
     ],
 }
+
+PROPS["C15"] = {
+    "level": "exploration",
+    "rule": ("(a) Raw: arbitrary / corrupted-valid / truncated-valid / random-frame byte strings in both directions through TracingHTTP2Conn around a scripted net.Conn (drawn per-call counts, short writes, timeouts, errors, EOF, close error), client and server side; oracle: every Read/Write/Close result and every byte forwarded is identical to the unwrapped run, no panic. "
+             "(b) Exchange: 1-6 concurrent streams (named or not; request HEADERS optionally split into CONTINUATION; enveloped request/response messages in DATA frames of drawn sizes, optional padding; response end via trailers or END_STREAM; RST_STREAM from either side at a drawn point; refused stream followed by a retry under the same test name; "
+             "stream left open until the connection closes; GOAWAY with drawn last-stream-id and code; interleaved SETTINGS/PING/WINDOW_UPDATE), one HPACK encoder per direction shared by all streams, frames interleaved by a drawn schedule respecting per-stream order, bytes split into Read/Write calls at drawn offsets (forced cuts inside 9-byte frame headers, byte-wise partitions) and, as second partition, whole flushes; "
+             "oracle: exactly one completed trace per test name (the retry's when refused), none for unnamed streams, with that stream's request line/headers, response status/headers/trailers, the reference-parsed request and response messages in order, and a last event matching the end or reset code. "
+             "Non-trivial: >=2 streams with cuts, or any RST/GOAWAY/refusal/open-at-close. A native fuzz target (thorough) feeds arbitrary bytes/partitions to (a)."),
+    "assumptions": ["1xx interim responses and client-sent GOAWAY are not generated in (b)",
+                    "the request side of a stream ends before its response does unless the stream is reset",
+                    "which side emits the partial (unfinished) message event on a reset is not asserted; complete messages are"],
+    "units": [
+        {"name": "C15Raw", "pkg": TR, "test": "TestVerifC15Raw", "kind": "rapid",
+         "checks": {"quick": 10000, "thorough": 150000}, "shards": {"quick": 2, "thorough": 16}},
+        {"name": "C15Exchange", "pkg": TR, "test": "TestVerifC15Exchange", "kind": "rapid",
+         "checks": {"quick": 2500, "thorough": 40000}, "shards": {"quick": 4, "thorough": 16}},
+        {"name": "C15Fuzz", "pkg": TR, "test": "FuzzVerifC15Conn", "kind": "fuzz", "fuzz_target": "FuzzVerifC15Conn",
+         "only_tiers": ["thorough"], "fuzztime": {"thorough": "120s"}, "workers": 16, "timeout": {"thorough": 900}},
+    ],
+}
